@@ -61,7 +61,8 @@ def pick_flags():
     return f
 
 
-PEN_CODES = ["b0", "b1", "c2", "c3", "k00", "k01", "k10", "k11", "k20", "k21", "k30", "k31", "k41", "a2", "a4", "a3", "d3", "d5", "D3", "D5"]
+PEN_CODES = ["b0", "b1", "c2", "c3", "k00", "k01", "k10", "k11", "k20", "k21", "k30", "k31", "k41", "a2", "a4", "a3", "d3", "d5", "D3", "D5",
+             "h3", "h7", "h8", "h12", "n0", "n1", "n2", "n3", "n4", "n5"]
 
 
 def pen_code():
@@ -347,9 +348,43 @@ def exhaustive():
                             h.append(("beh 0 0 %d " % ret + " ".join(beh)).rstrip())
                         h += ["bind 2 %d 0" % f1, "bind 2 %d 1" % f2, op, "emit 2", "emit 2", "destroy"]
                         lines.extend(h); n += 1
+    # a root window's life on a terminal (window.c binding and unbinding its three handlers by identifier) against the
+    # application's own bindings: every sequence of up to 5 steps over
+    #   rootnew, rootref, rootclose, rootunref, bind key (wants unbind notification), bind key (plain, handler 1),
+    #   emit key, unbind of the application's first slot
+    # that creates a root window; then a key event and the destruction of the terminal.
+    syms = ["rootnew", "rootref", "rootclose", "rootunref", "bindU", "bindP", "emit 2", "unbindA"]
+    for ln in range(1, 6):
+        for seq in itertools.product(syms, repeat=ln):
+            if "rootnew" not in seq:
+                continue
+            h = ["new twin"]
+            nslots, refs, first_app = 0, 0, None
+            for x in seq:
+                if x == "rootnew":
+                    if refs == 0:
+                        refs = 1; nslots += 3
+                    h.append(x)
+                elif x == "rootref":
+                    refs += 1 if refs else 0; h.append(x)
+                elif x == "rootunref":
+                    refs -= 1 if refs else 0; h.append(x)
+                elif x in ("bindU", "bindP"):
+                    if first_app is None:
+                        first_app = nslots
+                    nslots += 1
+                    h.append("bind 2 2 0" if x == "bindU" else "bind 2 0 1")
+                elif x == "unbindA":
+                    h.append("unbind %d" % (first_app if first_app is not None else nslots))
+                else:
+                    h.append(x)
+            h += ["emit 2", "destroy"]
+            lines.extend(h); n += 1
     stats["exhaustive_histories"] = n
     return ("handler 0 with <=2 actions out of 7 at its first invocation x 16 flag sets (binding 0) x 4 (binding 1) x optional third binding "
-            "x 3 operations on a pen (run_event); the same with claim/decline x 16 x 4 x 3 operations on a terminal's key event (run_event_whilefalse)")
+            "x 3 operations on a pen (run_event); the same with claim/decline x 16 x 4 x 3 operations on a terminal's key event (run_event_whilefalse); "
+            "every sequence of <=5 steps over {rootnew, rootref, rootclose, rootunref, bind key wanting unbind, bind key plain, emit key, unbind first "
+            "application slot} containing a rootnew, on a terminal, followed by a key event and destroy")
 
 
 bound = None
